@@ -115,6 +115,15 @@ def r8_results_from_one_fit(ctx):
     r3_bypass_writers(ctx)
 
 
+
+def r_no_handout(ctx):
+    """the documented get-edit-fit workflow (`p = get_initial_fit_parameters();
+    p[..].value = ..; fit_model(params_initial=p)`) only leads to a new fit if
+    the stored settings are never handed out: shared with C10-R3"""
+    from .c10 import r3_no_handout
+    r3_no_handout(ctx)
+
+
 RULES = [
     ("C04-R1", "NaN unless written; success flag matches the branch",
      fitclauses.clause_nan_unless_written),
@@ -136,4 +145,7 @@ RULES = [
      r7_expressions_survive),
     ("C04-R8", "fit properties are replaced wholesale only together with "
      "the result columns", r8_results_from_one_fit),
+    ("C04-R9", "stored settings are never handed out by reference (an "
+     "edited copy given back to fit_model must be seen as a change)",
+     r_no_handout),
 ]
